@@ -1,5 +1,7 @@
-//! Verification shim for `sha2` (see shims/crc): assumed contract "SHA-256 is a deterministic function of the
-//! byte sequence"; the real compression function is far outside CBMC's reach for symbolic data.
+//! Verification shim for `sha2` (see shims/crc): assumed contract "SHA-256 is a deterministic function of the byte
+//! sequence, independent of chunking"; the real compression function is far outside CBMC's reach for symbolic data.
+//! Same sampled fold as the crc shim (first 16 stream positions, neighbourhoods of multiples of 4096, total length),
+//! spread over 32 output bytes.
 #![no_std]
 
 pub trait Digest {
@@ -10,55 +12,75 @@ pub trait Digest {
 
 #[derive(Clone)]
 pub struct Sha256 {
-    s: [u8; 32],
-    n: usize,
+    s: [u64; 4],
+    count: u64,
 }
+
+const HEAD: u64 = 16;
+const BLOCK: u64 = 4096;
 
 impl Sha256 {
     fn mix(&mut self, b: u8) {
-        let k = self.n % 32;
-        let prev = self.s[(k + 31) % 32];
-        self.s[k] = (self.s[k].rotate_left(3) ^ b).wrapping_add(prev).wrapping_add(0x9D);
-        self.n = self.n.wrapping_add(1);
+        let s = &mut self.s;
+        s[0] = (s[0].rotate_left(11) ^ (b as u64)).wrapping_add(0x9E37_79B9_7F4A_7C15);
+        s[1] = (s[1].rotate_left(7) ^ s[0]).wrapping_add(b as u64);
+        s[2] = (s[2].rotate_left(13) ^ (b as u64).rotate_left(17)).wrapping_add(s[1]);
+        s[3] = s[3].rotate_left(5) ^ s[2];
     }
 }
 
 impl Digest for Sha256 {
     fn new() -> Self {
-        let mut s = [0u8; 32];
-        let mut i = 0;
-        while i < 32 {
-            s[i] = (i as u8).wrapping_mul(37).wrapping_add(11);
-            i += 1;
-        }
-        Sha256 { s, n: 0 }
+        Sha256 { s: [0x6A09_E667_F3BC_C908, 0xBB67_AE85_84CA_A73B, 0x3C6E_F372_FE94_F82B, 0xA54F_F53A_5F1D_36F1], count: 0 }
     }
     fn update(&mut self, data: impl AsRef<[u8]>) {
-        let d = data.as_ref();
-        if d.len() > 16 {
-            // long inputs: fixed sample of positions + length (see shims/crc)
-            let l = d.len();
-            let pos = [0, 1, l / 4, l / 2, l / 2 + 1, (l / 4) * 3, l - 2, l - 1];
-            let mut k = 0;
-            while k < 8 {
-                self.mix(d[pos[k]]);
-                k += 1;
-            }
-            self.mix(l as u8);
-            self.mix((l >> 8) as u8);
-            self.mix((l >> 16) as u8);
+        let bytes = data.as_ref();
+        let len = bytes.len() as u64;
+        if len == 0 {
             return;
         }
-        let mut i = 0;
-        while i < d.len() {
-            self.mix(d[i]);
-            i += 1;
-        }
+        assert!(len <= 3 * BLOCK, "verification shim: update() slices are limited to 12 KiB");
+        let count = self.count;
+        let end = count + len;
+        let first = (count / BLOCK) * BLOCK;
+        if 0 >= count && 0 < end { self.mix(bytes[(0 - count) as usize]); }
+        if 1 >= count && 1 < end { self.mix(bytes[(1 - count) as usize]); }
+        if 2 >= count && 2 < end { self.mix(bytes[(2 - count) as usize]); }
+        if 3 >= count && 3 < end { self.mix(bytes[(3 - count) as usize]); }
+        if 4 >= count && 4 < end { self.mix(bytes[(4 - count) as usize]); }
+        if 5 >= count && 5 < end { self.mix(bytes[(5 - count) as usize]); }
+        if 6 >= count && 6 < end { self.mix(bytes[(6 - count) as usize]); }
+        if 7 >= count && 7 < end { self.mix(bytes[(7 - count) as usize]); }
+        if 8 >= count && 8 < end { self.mix(bytes[(8 - count) as usize]); }
+        if 9 >= count && 9 < end { self.mix(bytes[(9 - count) as usize]); }
+        if 10 >= count && 10 < end { self.mix(bytes[(10 - count) as usize]); }
+        if 11 >= count && 11 < end { self.mix(bytes[(11 - count) as usize]); }
+        if 12 >= count && 12 < end { self.mix(bytes[(12 - count) as usize]); }
+        if 13 >= count && 13 < end { self.mix(bytes[(13 - count) as usize]); }
+        if 14 >= count && 14 < end { self.mix(bytes[(14 - count) as usize]); }
+        if 15 >= count && 15 < end { self.mix(bytes[(15 - count) as usize]); }
+        { let m = first + 0 * BLOCK; if m + 0 >= 1 { let q = m + 0 - 1; if q >= HEAD && q >= count && q < end { self.mix(bytes[(q - count) as usize]); } } }
+        { let m = first + 0 * BLOCK; if m + 1 >= 1 { let q = m + 1 - 1; if q >= HEAD && q >= count && q < end { self.mix(bytes[(q - count) as usize]); } } }
+        { let m = first + 0 * BLOCK; if m + 2 >= 1 { let q = m + 2 - 1; if q >= HEAD && q >= count && q < end { self.mix(bytes[(q - count) as usize]); } } }
+        { let m = first + 1 * BLOCK; if m + 0 >= 1 { let q = m + 0 - 1; if q >= HEAD && q >= count && q < end { self.mix(bytes[(q - count) as usize]); } } }
+        { let m = first + 1 * BLOCK; if m + 1 >= 1 { let q = m + 1 - 1; if q >= HEAD && q >= count && q < end { self.mix(bytes[(q - count) as usize]); } } }
+        { let m = first + 1 * BLOCK; if m + 2 >= 1 { let q = m + 2 - 1; if q >= HEAD && q >= count && q < end { self.mix(bytes[(q - count) as usize]); } } }
+        { let m = first + 2 * BLOCK; if m + 0 >= 1 { let q = m + 0 - 1; if q >= HEAD && q >= count && q < end { self.mix(bytes[(q - count) as usize]); } } }
+        { let m = first + 2 * BLOCK; if m + 1 >= 1 { let q = m + 1 - 1; if q >= HEAD && q >= count && q < end { self.mix(bytes[(q - count) as usize]); } } }
+        { let m = first + 2 * BLOCK; if m + 2 >= 1 { let q = m + 2 - 1; if q >= HEAD && q >= count && q < end { self.mix(bytes[(q - count) as usize]); } } }
+        { let m = first + 3 * BLOCK; if m + 0 >= 1 { let q = m + 0 - 1; if q >= HEAD && q >= count && q < end { self.mix(bytes[(q - count) as usize]); } } }
+        { let m = first + 3 * BLOCK; if m + 1 >= 1 { let q = m + 1 - 1; if q >= HEAD && q >= count && q < end { self.mix(bytes[(q - count) as usize]); } } }
+        { let m = first + 3 * BLOCK; if m + 2 >= 1 { let q = m + 2 - 1; if q >= HEAD && q >= count && q < end { self.mix(bytes[(q - count) as usize]); } } }
+        self.count = end;
     }
-    fn finalize(self) -> [u8; 32] {
-        let mut out = self.s;
-        out[0] ^= self.n as u8;
-        out[1] ^= (self.n >> 8) as u8;
-        out
+    fn finalize(mut self) -> [u8; 32] {
+        let n = self.count;
+        self.mix(n as u8);
+        self.mix((n >> 8) as u8);
+        self.mix((n >> 16) as u8);
+        self.mix((n >> 24) as u8);
+        let (a, b, c, d) = (self.s[0].to_le_bytes(), self.s[1].to_le_bytes(), self.s[2].to_le_bytes(), self.s[3].to_le_bytes());
+        [a[0], a[1], a[2], a[3], a[4], a[5], a[6], a[7], b[0], b[1], b[2], b[3], b[4], b[5], b[6], b[7],
+         c[0], c[1], c[2], c[3], c[4], c[5], c[6], c[7], d[0], d[1], d[2], d[3], d[4], d[5], d[6], d[7]]
     }
 }
